@@ -10,7 +10,7 @@ from ..c07_table import OPS, BY_OPNAME, HARNESS, NPT, LD, NOT_COMPILABLE, opname
 
 CLAIM = dict(
     technique="runtime monitoring: sanitizer-instrumented execution of every element-wise function on operands with unique values; two-layer oracle - (1) NumPy-broadcast index labels designate which operand elements feed each output element and the library's own scalar functor, applied to exactly those scalars in a plain loop, gives the reference element (exact comparison: same bits up to the sign of zero), (2) NumPy's ufunc / extended-precision formula as a cross-check where semantics coincide with C++",
-    text="All 70 ufuncs except clip (does not compile on the unchanged tree), where, the 18 activations (default and explicit parameters) and the 11 outer_* wrappers (+ generic view::outer) are executed as lazy views on dynamic ndarrays / scalars / transposed and sliced views with data from the case file. For every case: result shape == NumPy broadcast shape (outer: shape(a)+shape(b)); element i == scalar_functor(operand elements NumPy's broadcasting designates for i) exactly (same bits up to the sign of zero); element type of the view and of view(i...) == decltype(scalar_functor(a,b)); values cross-checked against NumPy (exact for +,-,*,/,comparisons,logical,bitwise,min/max,rounding,sqrt; <=4 ulp against a long-double reference for libm-backed functions; 64 eps for composite activation formulas). ASan/UBSan/libstdc++ assertions and the bounds hooks watch the same executions. Held-on-observed.",
+    text="All 70 ufuncs except clip (does not compile on the unchanged tree), where (condition of type uint8/uint16/int32/int64/float/double with a value domain weighted towards non-zero values whose low byte / low 16 bits / integer part is zero; x,y int32/float/double), the 18 activations (default and explicit parameters) and the 11 outer_* wrappers (+ generic view::outer) are executed as lazy views on dynamic ndarrays / scalars / transposed and sliced views with data from the case file. For every case: result shape == NumPy broadcast shape (outer: shape(a)+shape(b)); element i == scalar_functor(operand elements NumPy's broadcasting designates for i) exactly (same bits up to the sign of zero); element type of the view and of view(i...) == decltype(scalar_functor(a,b)); values cross-checked against NumPy (exact for +,-,*,/,comparisons,logical,bitwise,min/max,rounding,sqrt; <=4 ulp against a long-double reference for libm-backed functions; 64 eps for composite activation formulas). ASan/UBSan/libstdc++ assertions and the bounds hooks watch the same executions. Held-on-observed.",
     note="Trusted: NumPy broadcasting of label arrays, the harness' own odometer, C++ usual arithmetic conversions as implemented in c07_table.c_common. Only dynamic ndarrays, scalars and transpose/slice views are operands (other kinds: C09). One float and one int element type per function plus 8 mixed pairs on a reduced op set. Domains (division by zero, shift counts, pow/log arguments, signed overflow) are generator preconditions. view::clip is not exercised: it does not compile for any operand kind (baseline tests commented out).",
     ref="DESIGN.md 4/C07")
 TARGETS_QUICK = [(h, "asan") for h in HARNESS]
@@ -529,7 +529,7 @@ def oracle(ctx, cr):
     if cr.rec is None:
         return
     if "error" in cr.rec:
-        ctx.violation("%s:harness_error" % op, cr.rec["error"][:300], det)
+        ctx.violation("%s:malformed_record" % op, cr.rec["error"][:300], det)
         return
     ctx.ev()
     o, types, opds = case_objects(m)
@@ -544,7 +544,7 @@ def oracle(ctx, cr):
     try:
         rtag, atag, svals = parse_x(cr.rec["X"])
     except (ValueError, IndexError) as e:
-        ctx.violation("%s:harness_error" % op, "unparsable X section: %s" % e, det)
+        ctx.violation("%s:malformed_record" % op, "unparsable X section: %s" % e, det)
         return
     # ---- element type
     if got["tag"] != rtag:
@@ -567,7 +567,7 @@ def oracle(ctx, cr):
     # ---- layer 1: element i == scalar functor on the designated operand elements (bit-exact)
     n = int(np.prod(eshape)) if len(eshape) else 1
     if len(svals) != n or len(got["data"]) != n:
-        ctx.violation("%s:harness_error" % op, "element count mismatch: view %d scalar results %d expected %d" % (len(got["data"]), len(svals), n), det)
+        ctx.violation("%s:malformed_record" % op, "element count mismatch: view %d scalar results %d expected %d" % (len(got["data"]), len(svals), n), det)
         return
     cmp_tag = rtag if got["tag"] == rtag else ("f8" if "f" in (rtag[0], got["tag"][0]) else "i8")
     bad = [i for i in range(n) if not _bits_equal(got["data"][i], svals[i], cmp_tag)]
@@ -583,7 +583,7 @@ def oracle(ctx, cr):
             ref = np.broadcast_to(ref, eshape)
         ref = ref.reshape(-1)
         if ref.size != n:
-            ctx.violation("%s:harness_error" % op, "reference size %d != %d" % (ref.size, n), det)
+            ctx.violation("%s:malformed_record" % op, "reference size %d != %d" % (ref.size, n), det)
             return
         vals = got["data"]
         if cls == "exact":
